@@ -55,7 +55,6 @@ let tagname = function
   | TPrimRemNegative -> "prim_rem_negative" | TPrimDivUnfit -> "prim_div_unfit"
   | TFloatOperandExceedsPrecision -> "float_operand_exceeds_precision"
   | TFareyLinear -> "farey_linear_steps" | TWithBasePrecisionZero -> "with_base_precision_zero"
-  | TToPrimDigits -> "to_prim_quotient_digits"
 
 let judge_call ?(alt = None) ?(model_ok = true) ?(path = "") c got =
   match outcome_of got with
@@ -306,9 +305,13 @@ let judge_d name a got =
     match code with
     | None -> { v with extra = "nt=1 " ^ cls }
     | Some c ->
-        let want = if c = 0 then "ok" else if c = 1 then "err Deserialize" else "panic" in
-        { v with extra = Printf.sprintf "nt=1 asis=%s %s path=%s-model-%s" (if want = String.concat " " got then "same" else "diff") cls fmt
-                           (if c = 0 then "ok" else if c = 1 then "err" else "panic") }
+        (* no open finding class here: the model's outcome (proved Ok-or-Err, C16_serde_deserialize_never_panics /
+           C16_serde_json_text_never_panics) is the specification of these two routes: an accepted invalid value (zero
+           denominator, significand longer than the precision, a JSON number) or a refused valid one is a violation *)
+        let want = if c = 0 then "ok" else if c = 1 then "err Deserialize" else "ok-or-err" in
+        if c >= 0 && want <> String.concat " " got then fail want
+        else { v with extra = Printf.sprintf "nt=1 asis=%s %s path=%s-model-%s" (if c >= 0 then "same" else "diff") cls fmt
+                                (if c = 0 then "ok" else if c = 1 then "err" else "panic") }
 
 (* ---------------------------------------------------------------- cost classes (thorough tier: T.<op>) *)
 let nb v = Zar.of_int (Zar.numbits (Zar.abs v))
